@@ -360,6 +360,38 @@ fn op_json(op: &Operation) -> Value {
     }
 }
 
+fn arm(plans: &[std::sync::Arc<std::sync::Mutex<crate::faulty::FaultPlan>>], r: usize, step: &Value) {
+    if let Some(f) = step.get("fault") {
+        if f["layer"].as_str() == Some("storage") {
+            let mut p = plans[r].lock().unwrap();
+            p.armed = true;
+            p.count = 0;
+            p.fired = None;
+            p.fail_at = f["index"].as_u64().unwrap();
+            p.after = f["kind"].as_str() == Some("err_after");
+        }
+    }
+}
+
+fn disarm(plans: &[std::sync::Arc<std::sync::Mutex<crate::faulty::FaultPlan>>], r: usize) -> Option<String> {
+    let mut p = plans[r].lock().unwrap();
+    p.armed = false;
+    p.fired.take()
+}
+
+fn dump_replica(rep: &mut Replica<InMemoryStorage>) -> Value {
+    let tasks = replica_tasks(rep);
+    let ws = block_on(rep.working_set()).expect("working_set");
+    let mut wsv = Vec::new();
+    for i in 0..=ws.largest_index() {
+        wsv.push(ws.by_index(i).map(|u| num_of(u) as u64));
+    }
+    let nops = block_on(rep.num_local_operations()).unwrap_or(0);
+    let nundo = block_on(rep.num_undo_points()).unwrap_or(0);
+    let undo_ops = block_on(rep.get_undo_operations()).map(|o| o.iter().map(op_json).collect::<Vec<_>>()).unwrap_or_default();
+    json!({"tasks": tasks_json(&tasks), "working_set": wsv, "unsynced": nops, "undo_points": nundo, "undo_ops": undo_ops})
+}
+
 pub fn run(scn: &Value) -> Value {
     let nrep = scn["replicas"].as_u64().unwrap_or(1) as usize;
     let st = Rc::new(RefCell::new(ServerState::default()));
@@ -389,10 +421,12 @@ pub fn run(scn: &Value) -> Value {
         if let Some(r) = step.get("commit").and_then(|v| v.as_u64()) {
             let r = r as usize;
             let ops = build_ops(&mut reps[r], step["ops"].as_array().unwrap());
+            arm(&plans, r, &step);
             let res = block_on(reps[r].commit_operations(ops));
+            let fired = disarm(&plans, r);
             results.push(match res {
-                Ok(()) => json!({"ok": true}),
-                Err(e) => json!({"err": e.to_string()}),
+                Ok(()) => json!({"ok": true, "storage_fault_fired": fired}),
+                Err(e) => json!({"err": e.to_string(), "storage_fault_fired": fired}),
             });
         } else if let Some(r) = step.get("sync").and_then(|v| v.as_u64()) {
             let r = r as usize;
@@ -483,19 +517,26 @@ pub fn run(scn: &Value) -> Value {
                 Some(o) if step.get("use_saved").and_then(|v| v.as_bool()).unwrap_or(false) => o.clone(),
                 _ => block_on(reps[r].get_undo_operations()).expect("get_undo_operations"),
             };
+            arm(&plans, r, &step);
             let res = block_on(reps[r].commit_reversed_operations(ops));
+            let fired = disarm(&plans, r);
             results.push(match res {
-                Ok(b) => json!({"ok": true, "undone": b}),
-                Err(e) => json!({"err": e.to_string()}),
+                Ok(b) => json!({"ok": true, "undone": b, "storage_fault_fired": fired}),
+                Err(e) => json!({"err": e.to_string(), "storage_fault_fired": fired}),
             });
         } else if let Some(r) = step.get("rebuild").and_then(|v| v.as_u64()) {
             let r = r as usize;
             let renumber = step["renumber"].as_bool().unwrap_or(false);
+            arm(&plans, r, &step);
             let res = block_on(reps[r].rebuild_working_set(renumber));
+            let fired = disarm(&plans, r);
             results.push(match res {
-                Ok(()) => json!({"ok": true}),
-                Err(e) => json!({"err": e.to_string()}),
+                Ok(()) => json!({"ok": true, "storage_fault_fired": fired}),
+                Err(e) => json!({"err": e.to_string(), "storage_fault_fired": fired}),
             });
+        } else if let Some(r) = step.get("dump").and_then(|v| v.as_u64()) {
+            let r = r as usize;
+            results.push(json!({"dump": dump_replica(&mut reps[r])}));
         } else if let Some(r) = step.get("expire").and_then(|v| v.as_u64()) {
             let r = r as usize;
             let res = block_on(reps[r].expire_tasks());
@@ -510,15 +551,7 @@ pub fn run(scn: &Value) -> Value {
     // final report
     let mut reps_out = Vec::new();
     for rep in reps.iter_mut() {
-        let tasks = replica_tasks(rep);
-        let ws = block_on(rep.working_set()).expect("working_set");
-        let mut wsv = Vec::new();
-        for i in 0..=ws.largest_index() {
-            wsv.push(ws.by_index(i).map(|u| num_of(u) as u64));
-        }
-        let nops = block_on(rep.num_local_operations()).unwrap_or(0);
-        let nundo = block_on(rep.num_undo_points()).unwrap_or(0);
-        reps_out.push(json!({"tasks": tasks_json(&tasks), "working_set": wsv, "unsynced": nops, "undo_points": nundo}));
+        reps_out.push(dump_replica(rep));
     }
     let stb = st.borrow();
     let mut chain_state = Tasks::new();
